@@ -77,8 +77,8 @@ func genAnnounce(t *rapid.T) Case {
 		bc.Err = rapid.IntRange(0, 7).Draw(t, "originerr") == 7
 		c.Blobs = append(c.Blobs, bc)
 	}
-	lo := rapid.IntRange(1, 50).Draw(t, "minsteps") // lower bound only: keeps histories long, still lets the shrinker delete steps
-	c.Steps = rapid.SliceOfN(rapid.Custom(func(t *rapid.T) Step {
+	// Slice of slices: long histories on average (about 30 requests) that the shrinker can still delete from.
+	chunks := rapid.SliceOfN(rapid.SliceOfN(rapid.Custom(func(t *rapid.T) Step {
 		return Step{
 			Peer:     rapid.IntRange(0, c.Agents-1).Draw(t, "peer"),
 			Blob:     rapid.SampledFrom([]int{0, 0, 0, 1}).Draw(t, "blob"),
@@ -86,7 +86,10 @@ func genAnnounce(t *rapid.T) Case {
 			V1:       rapid.IntRange(0, 3).Draw(t, "v1") == 3,
 			NameOnly: rapid.IntRange(0, 4).Draw(t, "nameonly") == 4,
 		}
-	}), lo, 60).Draw(t, "steps")
+	}), 0, 12), 1, 10).Draw(t, "steps")
+	for _, ch := range chunks {
+		c.Steps = append(c.Steps, ch...)
+	}
 	return c
 }
 
@@ -554,7 +557,7 @@ func runSort(c SortCase) pbt.Verdict {
 func TestProp(t *testing.T) {
 	pbt.Main(t, pbt.Spec{
 		ID: "C26",
-		Rule: "part announce: 1-60 announce requests from 1-18 agents over 2 torrents (drawn completion flag, route v1 GET /announce or v2 POST /announce/{infohash}, digest or name-only body) are served by the real trackerserver handler (drawn announce_limit 0=default|1..16, policy completeness|default, real LocalStore, origin store answering 0-4 origins disjoint from agents or an error); every 200 response is judged against a model holding the latest flag per (torrent, agent): no announcer, no duplicate id, only origins of the blob or agents that announced the torrent, agents <= limit, empty for a complete announcer, and under completeness order seeders<origins<incomplete by the model's flags. " +
+		Rule: "part announce: 0-120 announce requests (about 30 on average) from 1-18 agents over 2 torrents (drawn completion flag, route v1 GET /announce or v2 POST /announce/{infohash}, digest or name-only body) are served by the real trackerserver handler (drawn announce_limit 0=default|1..16, policy completeness|default, real LocalStore, origin store answering 0-4 origins disjoint from agents or an error); every 200 response is judged against a model holding the latest flag per (torrent, agent): no announcer, no duplicate id, only origins of the blob or agents that announced the torrent, agents <= limit, empty for a complete announcer, and under completeness order seeders<origins<incomplete by the model's flags. " +
 			"part sortpeers: PriorityPolicy.SortPeers on 0-40 fresh PeerInfo values with distinct ids and a separately allocated source; result must be the given peers minus the source id, ordered by priority. " +
 			"non-trivial (announce) = at least two judged hand-outs for incomplete announcers whose torrent already had another agent; (sortpeers) = source id present in a list of >=3; distinct by case hash; evaluations = judged hand-outs",
 		Assumptions: []string{
